@@ -245,6 +245,9 @@ def run_history(ws, np_, st, steps, same_objects=False):
 # ------------------------------------------------------------------------------------------
 # validation by Trace_Output.tla (all histories side by side in one TLC run per shard)
 
+# order of the predicates along the chain: the first failing one names the violation
+PRIORITY = ["RunRaised", "Yielded", "Current_csv", "Current_tex", "Changed", "Regenerated_pdf", "Current_pdf",
+            "Regenerated_png", "Current_png", "NoRedo"]
 _BAD_RE = re.compile(r'^<<"BAD", (\d+), (\d+), "(\w+)", (\d+)>>', re.M)
 _END_RE = re.compile(r'^<<"END", (\d+)>>', re.M)
 
@@ -337,7 +340,7 @@ def check_histories(ctx, items, what, min_shard=40):
             pool.close()
             pool.join()
     nacc = 0
-    found = {}     # (pred, settings) -> list of (touch set, rec, run index, plot)
+    found = {}     # predicate -> list of (touch set, settings signature, rec, run index, plot)
     for o in outs:
         st = o["stats"]
         ctx._account("trace", "Trace_Output", st["cfg"], _Res(st))
@@ -350,28 +353,29 @@ def check_histories(ctx, items, what, min_shard=40):
         ctx.traces += ok
         ctx.distinct.update(o["hashes"])
         for rec, verdicts in o["bad"]:
-            # only the first run with a verdict counts: later runs start from a state that is already wrong
+            # only the first run with a verdict counts (later runs start from a state that is already
+            # wrong), and of its verdicts the one earliest in the chain (the others follow from it)
             first = min(j for j, _, _ in verdicts)
-            for j, pred, p in verdicts:
-                if j != first:
-                    continue
-                t = rec["runs"][j]["touched"]
-                # touches of other plots are irrelevant for plot p; plots are renumbered to 1
-                rel = {"del": [[1, k] for q, k in t["del"] if q == p], "data": [1 for q in t["data"] if q == p],
-                       "tpl": t["tpl"]}
-                tset = frozenset(touch_sig(rel).split("+"))
-                found.setdefault((pred, settings_sig(rec["set"])), []).append((tset, rec, j, p))
+            j, pred, p = min((v for v in verdicts if v[0] == first), key=lambda v: (PRIORITY.index(v[1]), v[2]))
+            t = rec["runs"][j]["touched"]
+            # touches of other plots are irrelevant for plot p; the plot is renumbered to 1
+            rel = {"del": [[1, k] for q, k in t["del"] if q == p], "data": [1 for q in t["data"] if q == p],
+                   "tpl": t["tpl"]}
+            tset = frozenset(touch_sig(rel).split("+")) | (frozenset(["first-run"]) if j == 0 else frozenset())
+            found.setdefault(pred, []).append((tset, settings_sig(rec["set"]), rec, j, p))
         for r in o["samples"]:
             ctx.sample({"recorded_history_%s" % what: {k: r[k] for k in ("np", "set", "runs")}}, limit=4)
-    for (pred, ssig), lst in sorted(found.items()):
-        minimal = [x for x in lst if not any(y[0] < x[0] for y in lst)]
-        seen = set()
-        for tset, rec, j, p in sorted(minimal, key=lambda x: (sorted(x[0]), len(x[1]["runs"]), x[1]["gi"])):
-            if tset in seen:
-                continue
-            seen.add(tset)
-            ctx.violation("Output:%s:%s:%s%s" % (pred, ssig, "+".join(sorted(tset)), ":first-run" if j == 0 else ""), {
+    for pred, lst in sorted(found.items()):
+        # one violation per minimal set of touches
+        minimal = set(x[0] for x in lst if not any(y[0] < x[0] for y in lst))
+        for tset in sorted(minimal, key=sorted):
+            xs = [x for x in lst if x[0] == tset]
+            # the settings go into the key only when the failure is specific to one non-default setting
+            ssigs = sorted(set(x[1] for x in xs))
+            suffix = ":" + ssigs[0] if len(ssigs) == 1 and ssigs[0] != "default" else ""
+            _, _, rec, j, p = min(xs, key=lambda x: (x[1] != "default", len(x[2]["runs"]), x[2]["np"], x[2]["gi"]))
+            ctx.violation("Output:%s:%s%s" % (pred, "+".join(sorted(tset)), suffix), {
                 "found_by": what, "np": rec["np"], "settings": rec["set"], "same_objects": rec["same_objects"],
-                "failing_run": j, "plot": p,
+                "failing_run": j, "plot": p, "failing_histories": len(xs), "failing_settings": ssigs[:12],
                 "history": [{"touched": r["touched"], "exc": r["exc"], "obs": r["obs"]} for r in rec["runs"][:j + 1]]})
     return nacc
